@@ -179,7 +179,8 @@ fn process(line: &Value) -> Done {
     let o = run_case(&text, &line["cfg"]);
     let mut info = json!({
         "id": id, "status": o.status, "idem": o.idem, "parse_ok": o.parse_ok, "n": o.n_elems, "sha": sha(&text),
-        "changed": o.out1 != text, "comments": o.comments, "origin": origin(line),
+        "changed": o.out1 != text, "comments": o.comments, "comment_moves": o.comment_moves,
+        "origin": origin(line),
     });
     if o.status == "panic" {
         info["panic"] = json!(o.panic_msg);
@@ -291,7 +292,8 @@ fn cmd_show(path: &str) {
     println!(
         "{}",
         json!({"status": o.status, "text": text, "out1": o.out1, "out2": o.out2, "idem": o.idem,
-               "parse_ok": o.parse_ok, "panic": o.panic_msg, "trace": trace, "sha": sha(&text), "comments": o.comments})
+               "parse_ok": o.parse_ok, "panic": o.panic_msg, "trace": trace, "sha": sha(&text), "comments": o.comments,
+               "comment_moves": o.comment_moves})
     );
 }
 
